@@ -14,6 +14,7 @@ import (
 	mintertypes "github.com/chain4energy/c4e-chain/x/cfeminter/types"
 	sigkeeper "github.com/chain4energy/c4e-chain/x/cfesignature/keeper"
 	sigtypes "github.com/chain4energy/c4e-chain/x/cfesignature/types"
+	cfevesting "github.com/chain4energy/c4e-chain/x/cfevesting"
 	vestingtypes "github.com/chain4energy/c4e-chain/x/cfevesting/types"
 	sdk "github.com/cosmos/cosmos-sdk/types"
 )
@@ -122,7 +123,7 @@ func TestRegressC15(t *testing.T) {
 }
 
 // TestRegressSpelling: an owner or recipient spelled in upper case (valid bech32) is the same
-// account (fixed 38cdc64).
+// account (fixed 6f9758e).
 func TestRegressSpelling(t *testing.T) {
 	v := NewVestWorld([]VType{{Name: "vt0", Free18: "0", LockupNs: 0, VestNs: 100 * dayNs}})
 	owner := KeyAcc(1).Addr
@@ -156,6 +157,33 @@ func TestRegressSpelling(t *testing.T) {
 	}
 	if got := v.Bal(owner).Sub(bal...); !got.IsEqual(sdk.NewCoins(sdk.NewInt64Coin(Denom, 600))) {
 		t.Fatalf("withdraw with the owner spelled in upper case paid %s, the matured pool held 600", got)
+	}
+	// a genesis file that spells an owner in upper case
+	{
+		v := NewVestWorld([]VType{{Name: "vt0", Free18: "0", LockupNs: 0, VestNs: 100 * dayNs}})
+		o2 := KeyAcc(2).Addr
+		gs := cfevesting.ExportGenesis(v.Ctx, v.App.CfevestingKeeper)
+		gs.AccountVestingPools = append(gs.AccountVestingPools, &vestingtypes.AccountVestingPools{Owner: upper(o2), VestingPools: []*vestingtypes.VestingPool{{Name: "g", VestingType: "vt0",
+			LockStart: nsTime(v.NowNs), LockEnd: nsTime(v.NowNs + secNs), InitiallyLocked: sdk.NewInt(77), Withdrawn: sdk.ZeroInt(), Sent: sdk.ZeroInt(), GenesisPool: true}}})
+		if err := gs.Validate(); err != nil {
+			t.Fatalf("genesis with an upper case owner does not validate: %v", err)
+		}
+		FundModule(v.App, v.Ctx, vestingtypes.ModuleName, sdk.NewCoins(sdk.NewInt64Coin(Denom, 77)))
+		cfevesting.InitGenesis(v.Ctx, v.App.CfevestingKeeper, *gs, v.App.AccountKeeper, v.App.BankKeeper, v.App.StakingKeeper)
+		if res := v.Run(&vestingtypes.MsgCreateVestingPool{Owner: o2.String(), Name: "p", Amount: sdk.NewInt(5), Duration: time.Hour, VestingType: "vt0"}); !res.OK() {
+			t.Fatalf("create pool: %v %v", res.Err, res.Panic)
+		}
+		if n := len(v.App.CfevestingKeeper.GetAllAccountVestingPools(v.Ctx)); n != 1 {
+			t.Fatalf("%d owner records for one account (genesis spelled it in upper case)", n)
+		}
+		v.Advance(2 * secNs)
+		bal := v.Bal(o2)
+		if res := v.Run(&vestingtypes.MsgWithdrawAllAvailable{Owner: o2.String()}); !res.OK() {
+			t.Fatalf("withdraw: %v %v", res.Err, res.Panic)
+		}
+		if got := v.Bal(o2).Sub(bal...); !got.IsEqual(sdk.NewCoins(sdk.NewInt64Coin(Denom, 77))) {
+			t.Fatalf("matured genesis pool of an owner the genesis file spelled in upper case: withdraw paid %s, expected 77", got)
+		}
 	}
 	StatsFor("C06").Case(true, "regress: owner and recipient spelled in upper case")
 	StatsFor("C17").Case(true, "regress: owner and recipient spelled in upper case")
